@@ -335,13 +335,16 @@ def ref_apply(P, f, st, opts):
             info['kind'].append('window-' + fn)
             # exact comparison only when every quantity a float implementation has to form is a short dyadic
             div = (w - 1) / slope if fn == 'LINEAR' else w / slope
-            if fn == 'SIGMOID' or div == 0 or not all(small_dyadic(q) for q in (
-                    (c - icpt) / slope, (c - Fraction(1, 2) - icpt) / slope, w / slope, div, (hi - lo) / div)):
+            unit = fn == 'LINEAR' and w == 1       # the step at c - 0.5: no division is formed (PS3.3 C.11.2.1.2.1)
+            if fn == 'SIGMOID' or (div == 0 and not unit) or not all(small_dyadic(q) for q in (
+                    (c - icpt) / slope, (c - Fraction(1, 2) - icpt) / slope, w / slope) + (() if unit else (div, (hi - lo) / div))):
                 info['exact'] = False
             if (fn == 'LINEAR' and w < 1) or w <= 0:
                 return ('skip', 'degenerate window width')
-            if fn == 'LINEAR' and w == 1:
-                info['unit_linear_window'] = True
+            if unit and mlut is None and slope < 0:
+                # open finding C06-linear-width-one-negative-slope: the folded window has effective width 1 again and the
+                # direction of the step is lost
+                info['unit_linear_window_negative_slope'] = True
             if div != 0:
                 # float32 outputs are computed in float32: the subtraction stored - window start cancels, its rounding
                 # error is scaled by range / width.  Slack for that (absolute), used for float32 comparisons only.
@@ -518,7 +521,8 @@ def gen_lut(r, bits, first_range, max_len=12, pow2_range=False):
 
 def gen_window(r, m, b, nwin, fn, allow_unit=False):
     """windows whose folding through slope m / intercept b is exact in binary floating point;
-    `allow_unit`: a few LINEAR windows of width exactly 1 (open finding C06-linear-width-one)"""
+    `allow_unit`: a few LINEAR windows of width exactly 1 (the step of PS3.3 C.11.2.1.2.1; fixed finding
+    C06-linear-width-one, open finding C06-linear-width-one-negative-slope behind a negative rescale slope)"""
     cs, ws, us = [], [], []
     for _ in range(nwin):
         odd = r.choice([1, 1, 1, 3, 5, 7])
@@ -2030,9 +2034,10 @@ def _own_open_findings():
 
 
 def attribute(failure, open_findings):
-    """C06-linear-width-one: a failure of a pipeline case whose window in force is LINEAR with width exactly 1"""
+    """C06-linear-width-one-negative-slope: a failure of a pipeline case whose window in force is LINEAR with width exactly
+    1 AND sits behind a rescale with a negative slope (width 1 alone is repaired: dde009a)"""
     ids = {f['id'] for f in list(open_findings) + _own_open_findings()}
-    if 'C06-linear-width-one' not in ids:
+    if 'C06-linear-width-one-negative-slope' not in ids:
         return None
     case = failure.get('case') or {}
     if case.get('stream') != 'pipe' or 'P' not in case or not str(failure.get('site', '')).startswith('get_frame/'):
@@ -2041,8 +2046,8 @@ def attribute(failure, open_findings):
     frames = range(len(P['frames'])) if case.get('frame') == 'all' else [case['frame']]
     for f in frames:
         ref = ref_frame(P, f, flags, opts)
-        if ref[0] == 'ok' and ref[2].get('unit_linear_window'):
-            return 'C06-linear-width-one'
+        if ref[0] == 'ok' and ref[2].get('unit_linear_window_negative_slope'):
+            return 'C06-linear-width-one-negative-slope'
     return None
 
 
